@@ -99,4 +99,98 @@ def showSegv : SegvOutcome → String
   | .flushed fs recs => "flushed recs=[" ++ " ".intercalate (recs.map showRec) ++ "] written=[" ++
       " ".intercalate (fs.map fun f => if f.written then "1" else "0") ++ "]"
 
+/-! ### the recorder's task list, and a tid that lives on in a new image (exec)
+
+cmds/record.c read_record_mmap: REC_START / REC_END / TASK_START / FORK_START / FORK_END / TASK_END,
+flush_old_shmem, and flush_shmem_list at the end — as far as they decide in which ORDER the buffers of
+one tid are handed to copy_to_buffer (`enq`, ghost).  By the writer pool's per-tid FIFO
+(Lemmas/Writers: enqueue_queue, popHead_queue) that is the order in which they reach `<tid>.dat`.
+`known pos.pid pos.tid msg.pid msg.tid` is the test "existing tid (due to exec)" of the TASK_START
+case; the code's own is generated into Uft/Gen/TaskStart.lean on every run. -/
+
+/-- struct tid_list; `tid = -1`: FORK_START seen, FORK_END not yet -/
+structure Task where
+  pid : Int
+  tid : Int
+  exited : Bool := false
+  deriving DecidableEq, Repr
+
+inductive CMsg where
+  | recStart (tid : Int) (b : Nat)      -- `b`: the buffer (session, tid, seq)
+  | recEnd (tid : Int) (b : Nat)
+  | taskStart (pid tid : Int)
+  | forkStart (pid : Int)
+  | forkEnd (pid tid : Int)             -- pid = the child's getppid(), tid = the child
+  | taskEnd (tid : Int)
+  deriving DecidableEq, Repr
+
+structure RecState where
+  tasks : List Task := []               -- tid_list_head (list_add: newest first)
+  shm : List (Int × Nat) := []          -- shmem_list_head
+  enq : List (Int × Nat) := []          -- ghost: buffers handed to record_mmap_file → copy_to_buffer, in order
+  deriving Repr
+
+/-- flush_old_shmem: the first entry of that tid leaves shmem_list and is handed over -/
+def flushOld (tid : Int) : List (Int × Nat) → Option ((Int × Nat) × List (Int × Nat))
+  | [] => none
+  | e :: l => if e.1 = tid then some (e, l) else
+    match flushOld tid l with
+    | some (x, l') => some (x, e :: l')
+    | none => none
+
+/-- FORK_END: the entry of that parent still waiting for its child's tid; else (daemon) the first waiting one -/
+def forkEndUpdate (pid tid : Int) (ts : List Task) : List Task :=
+  let rec setFirst (p : Task → Bool) : List Task → Option (List Task)
+    | [] => none
+    | t :: l => if p t then some ({ t with tid := tid } :: l) else (setFirst p l).map (t :: ·)
+  match setFirst (fun t => t.pid == pid && t.tid == -1) ts with
+  | some l => l
+  | none =>
+    match setFirst (fun t => t.tid == -1) ts with
+    | some l => l
+    | none => ts          -- pr_err("cannot find fork pid")
+
+def handle (known : Int → Int → Int → Int → Bool) (s : RecState) : CMsg → RecState
+  | .recStart t b => { s with shm := s.shm ++ [(t, b)] }
+  | .recEnd t b => { s with shm := s.shm.erase (t, b), enq := s.enq ++ [(t, b)] }
+  | .taskStart pid tid =>
+    if s.tasks.any (fun pos => known pos.pid pos.tid pid tid) then
+      match flushOld tid s.shm with
+      | some (e, l) => { s with shm := l, enq := s.enq ++ [e] }
+      | none => s
+    else { s with tasks := { pid := pid, tid := tid } :: s.tasks }
+  | .forkStart pid => { s with tasks := { pid := pid, tid := -1 } :: s.tasks }
+  | .forkEnd pid tid => { s with tasks := forkEndUpdate pid tid s.tasks }
+  | .taskEnd tid => { s with tasks := s.tasks.map fun t => if t.tid == tid then { t with exited := true } else t }
+
+/-- finish_writers: flush_shmem_list -/
+def finishRec (s : RecState) : RecState := { s with shm := [], enq := s.enq ++ s.shm }
+
+def runRec (known : Int → Int → Int → Int → Bool) (msgs : List CMsg) : RecState :=
+  finishRec (msgs.foldl (handle known) {})
+
+/-- buffers of `t`, in the order they were started -/
+def startsOf (t : Int) : List CMsg → List (Int × Nat)
+  | [] => []
+  | .recStart t' b :: l => if t' = t then (t', b) :: startsOf t l else startsOf t l
+  | _ :: l => startsOf t l
+
+def knownTid (s : RecState) (t : Int) : Bool := s.tasks.any (fun x => x.tid == t)
+
+def shmOf (s : RecState) (t : Int) : List (Int × Nat) := s.shm.filter (fun e => e.1 = t)
+
+/-- what the producers guarantee about a message, given what the recorder holds (C03: a REC_END ends the one
+    buffer the recorder holds for that tid; a new image starts its first buffer while at most the dead image's
+    last one is still announced; TASK_START comes either from a task not seen before, or from a new image of a
+    known task whose old image left its last buffer behind) -/
+def msgOk (s : RecState) : CMsg → Bool
+  | .recStart t _ => (shmOf s t).length ≤ 1
+  | .recEnd t b => shmOf s t == [(t, b)]
+  | .taskStart _ t => ((shmOf s t).length == 2 && knownTid s t) || (decide ((shmOf s t).length ≤ 1) && !knownTid s t)
+  | _ => true
+
+def valid (known : Int → Int → Int → Int → Bool) : RecState → List CMsg → Bool
+  | _, [] => true
+  | s, m :: l => msgOk s m && valid known (handle known s m) l
+
 end Uft.Crash
